@@ -23,6 +23,11 @@ if r.returncode != 0:
     print("patch does not apply:", r.stderr)
     sys.exit(2)
 res = {}
+# evidence files are rewritten by every run: keep the unchanged tree's records, a mutant run must not replace them
+import shutil, tempfile
+ev_backup = tempfile.mkdtemp(prefix="evidence-backup-")
+for f in os.listdir(os.path.join(ROOT, "evidence")):
+    shutil.copy(os.path.join(ROOT, "evidence", f), ev_backup)
 try:
     for p in props:
         t0 = time.time()
@@ -37,4 +42,7 @@ try:
                 print("     ", json.dumps({k: rec.get(k) for k in ("profile", "op_line", "impl_actual", "model_actual", "witness", "program_case")})[:600])
 finally:
     subprocess.run(["git", "-C", REPO, "checkout", "--", "."], check=True)
+    for f in os.listdir(ev_backup):
+        shutil.copy(os.path.join(ev_backup, f), os.path.join(ROOT, "evidence", f))
+    shutil.rmtree(ev_backup, ignore_errors=True)
 print(json.dumps({"patch": patch, "detected_by": [p for p in res if res[p]["rc"] != 0]}))
